@@ -61,7 +61,7 @@ class AddressParser(object):
                 return self.labels[num]
 
             else:
-                matches = re.match(r'^([^\s+-]+)\s*([+\-])\s*([$+%]?\d+)$', num)
+                matches = re.match(r'^([^\s+-]+)\s*([+\-])\s*([$+%]?[0-9a-fA-F]+)$', num)
                 if matches:
                     label, sign, offset = matches.groups()
 
